@@ -11,6 +11,11 @@ trusted = sys.argv[2:]
 src = open(os.path.join(V, "lean", "Pog", "Props", pid + ".lean")).read()
 names = re.findall(r"^theorem ([A-Za-z0-9_']+)", src, re.M)
 old = d.get(pid, {})
-d[pid] = {"modules": [f"Pog.Props.{pid}"], "theorems": {f"Pog.{pid}.{n}": kind(n) for n in names}, "trusted": trusted or old.get("trusted", [])}
+ths = {f"Pog.{pid}.{n}": kind(n) for n in names}
+# theorems proved in a shared Props module (imported by this file) that this property claims:  -- INDEX Pog.ResolveProps: a, b, c
+for ns, lst in re.findall(r"^-- INDEX ([A-Za-z0-9_.]+):\s*(.+)$", src, re.M):
+    for n in [x.strip() for x in lst.split(",") if x.strip()]:
+        ths[f"{ns}.{n}"] = kind(n)
+d[pid] = {"modules": [f"Pog.Props.{pid}"], "theorems": ths, "trusted": trusted or old.get("trusted", [])}
 json.dump(d, open(p, "w"), indent=1)
-print(pid, len(names), "theorems")
+print(pid, len(ths), "theorems")
